@@ -19,13 +19,21 @@ func genEvalCheck(rc *Run, module, invLine string, laws []string, quickShards in
 	if shard < 0 {
 		shard = -shard
 	}
-	cfg := fmt.Sprintf("CONSTANTS\n Dev = {}\n NShards = %d\n Shard = %d\nINIT Init\nNEXT Next\n%s\nCHECK_DEADLOCK FALSE\n", nsh, shard, invLine)
+	big := "FALSE"
+	if rc.Thorough() {
+		big = "TRUE"
+	}
+	cfg := fmt.Sprintf("CONSTANTS\n Dev = {}\n Big = "+big+"\n NShards = %d\n Shard = %d\nINIT Init\nNEXT Next\n%s\nCHECK_DEADLOCK FALSE\n", nsh, shard, invLine)
 	g, err := runGenEval(rc, module, "gen", cfg, time.Duration(rc.Pick(10, 40))*time.Minute)
 	if err != nil {
 		return err
 	}
 	rc.Logf("TLC: laws %v hold on %d states; %d vectors (%d expressions x %d documents)", laws, g.TLC.Distinct, len(g.Vectors), len(g.Exprs), len(g.Docs))
 	stats := replayEvalVectors(rc, g, rc.ID)
+	// code -> model: the handler steps of a sample of the real evaluations, judged by TLC (Trace_Eval.tla)
+	if err := validateHandlerSteps(rc, g, rc.Pick(4, 16), rc.ID); err != nil {
+		return err
+	}
 	rc.Set("states", g.TLC.Distinct)
 	rc.Set("transitions", g.TLC.Generated)
 	rc.Set("traces_validated_against_impl", stats.compared)
